@@ -18,6 +18,8 @@ import (
 	"sort"
 	"strings"
 	"sync"
+	"sync/atomic"
+	"time"
 
 	"github.com/smart-core-os/sc-golang/verifharness/lib"
 )
@@ -62,6 +64,9 @@ func main() {
 	sort.Strings(ps)
 	res.Extra["yield_points_reached"] = ps
 	res.Extra["scenarios"] = len(first) + len(second)
+	if n := skipped.Load(); n > 0 {
+		res.Notes = append(res.Notes, fmt.Sprintf("stopped early after %d failing scenarios: %d scenarios not run", stopEarly.Load(), n))
+	}
 	if err := res.Write(f.Out); err != nil {
 		lib.Fatal(err)
 	}
@@ -78,7 +83,6 @@ type agg struct {
 func newAgg(res *lib.Result) *agg {
 	a := &agg{res: res, mons: map[string]*lib.Monitor{}, ties: map[string]*lib.Tie{}}
 	a.ties[tieSched] = res.Tie(tieSched, "K4", tieSchedRule)
-	a.ties[tiePipe] = res.Tie(tiePipe, "K4", tiePipeRule)
 	a.mons[monShutdown] = res.Monitor(monShutdown,
 		"real pkg/resource + minibus under scenarios (0-8 subscribers, backpressure on/off, updates-only, PullID; consumers drain / stop after k / never receive; cancel before subscribe, at the n-th occurrence of every yield point, at random instants, at the end; 0-3 writers): after the cancel the consumer sees close within the bound; writers return once every non-receiving subscriber is cancelled; a write issued after a subscription ended returns; PullID closes after its item is removed; the goroutine census (runtime.Stack filtered to pkg/resource + internal/minibus frames) returns to empty; no panic (recovered or process-killing). non-trivial = at least one subscriber; distinct = distinct check x subscription class x consumer/cancel mode")
 	a.mons[monDelivery] = res.Monitor(monDelivery,
@@ -111,9 +115,6 @@ func (a *agg) add(sc Scenario, o Outcome) {
 		if strings.HasPrefix(k, "tie:") {
 			dst = a.ties[tieSched].Distribution
 			k = strings.TrimPrefix(k, "tie:")
-		} else if strings.HasPrefix(k, "pipe:") {
-			dst = a.ties[tiePipe].Distribution
-			k = strings.TrimPrefix(k, "pipe:")
 		}
 		dst[k] += n
 	}
@@ -148,7 +149,7 @@ func worker(f lib.Flags) {
 			out.Flush()
 			var o Outcome
 			switch req.Sc.Mode {
-			case "sched", "pipe":
+			case "sched":
 				if drv == nil {
 					d, derr := lib.StartDriver(f.Driver)
 					if derr != nil {
@@ -157,11 +158,7 @@ func worker(f lib.Flags) {
 					drv = d
 				}
 				if drv != nil {
-					if req.Sc.Mode == "sched" {
-						o = runSched(req.Sc, drv)
-					} else {
-						o = runPipe(req.Sc, drv)
-					}
+					o = runSched(req.Sc, drv)
 				}
 			default:
 				o = runStress(req.Sc)
@@ -169,12 +166,18 @@ func worker(f lib.Flags) {
 			b, _ := json.Marshal(o)
 			fmt.Fprintf(out, "E %d %s\n", req.Idx, b)
 			out.Flush()
+			if ok, _, _ := waitBaseline(50 * time.Millisecond); !ok {
+				// goroutines of the code under test are stuck in this process: continue in a fresh one
+				return
+			}
 		}
 		if err != nil {
 			return
 		}
 	}
 }
+
+var stopEarly, skipped atomic.Int64
 
 var panicRe = regexp.MustCompile(`(?m)^(panic|fatal error): (.*)$`)
 
@@ -215,6 +218,12 @@ func runShard(f lib.Flags, scs []Scenario, idxs []int, outs []Outcome) {
 				var o Outcome
 				if len(rest) == 3 && json.Unmarshal([]byte(rest[2]), &o) == nil {
 					outs[i] = o
+					if len(o.Viols) > 0 {
+						// enough failing inputs: do not spend the whole budget waiting on blocked goroutines
+						if stopEarly.Add(1) >= 8 {
+							cmd.Process.Kill()
+						}
+					}
 				}
 				begun = -1
 				pos++
@@ -226,6 +235,15 @@ func runShard(f lib.Flags, scs []Scenario, idxs []int, outs []Outcome) {
 		cmd.Wait()
 		if pos >= len(idxs) {
 			return
+		}
+		if stopEarly.Load() >= 8 {
+			skipped.Add(int64(len(idxs) - pos))
+			return
+		}
+		if begun == -1 {
+			// the child left on purpose (stuck goroutines after a failing scenario) or was stopped: go on in a new one
+			idxs = idxs[pos:]
+			continue
 		}
 		// the child died inside scenario idxs[pos]
 		i := idxs[pos]
@@ -244,6 +262,10 @@ func runShard(f lib.Flags, scs []Scenario, idxs []int, outs []Outcome) {
 		outs[i] = o
 		_ = begun
 		idxs = idxs[pos+1:]
+		if stopEarly.Add(1) >= 8 {
+			skipped.Add(int64(len(idxs)))
+			return
+		}
 	}
 }
 
